@@ -69,6 +69,8 @@ type c05Obs struct {
 	SrcSame  bool     `json:"src_same,omitempty"`
 	SrcParse string   `json:"src_parse,omitempty"`
 	Notes    []string `json:"notes,omitempty"`
+	Restart  bool     `json:"restart,omitempty"` // the child must be replaced (a goroutine of it is stuck)
+	Millis   int64    `json:"ms,omitempty"`      // time the case took in the child, the probes afterwards included
 }
 
 // ---------------------------------------------------------------- the standard context
@@ -109,6 +111,23 @@ type c05EmbNil struct {
 }
 type c05Str string
 
+// getters on the value, setters on the pointer: the two method sets differ, and the pointer's has
+// methods with arguments that sort before the getters
+type c05Mixed struct{ name string }
+
+func (m c05Mixed) Name() string       { return "mixed " + m.name }
+func (m c05Mixed) Title() string      { return "title" }
+func (m *c05Mixed) Add(n int) int     { return n + 1 }
+func (m *c05Mixed) Alter(s string)    { m.name = s }
+func (m *c05Mixed) SetName(s string)  { m.name = s }
+func (m *c05Mixed) Zap() string       { return "zap" }
+func (m c05Mixed) With(a, b int) bool { return a < b }
+
+type c05Node struct {
+	Name string
+	Next *c05Node
+}
+
 func c05Ctx() map[string]interface{} {
 	one := 1
 	pone := &one
@@ -138,7 +157,23 @@ func c05Ctx() map[string]interface{} {
 		"emb": c05EmbNil{X: 1}, "long": long, "longany": longAny, "lol": [][]int{{1}, {2}}, "named": c05Str("nm"),
 		"empty": []interface{}{}, "emap": map[string]interface{}{}, "a": "A1", "b": "<B&>", "c": "", "d": "d d",
 		"items": []interface{}{1, 2, 3}, "x": 1, "y": 2,
+		"mix": c05Mixed{name: "v"}, "pmix": &c05Mixed{name: "p"},
 	}
+}
+
+// values that contain themselves (thorough tier): map, slice, struct pointer, pointer
+func c05CyclicCtx() map[string]interface{} {
+	ctx := c05Ctx()
+	m := map[string]interface{}{"a": 1}
+	m["self"] = m
+	sl := []interface{}{1, nil}
+	sl[1] = sl
+	n := &c05Node{Name: "n"}
+	n.Next = n
+	var pp interface{}
+	pp = &pp
+	ctx["cycm"], ctx["cycs"], ctx["cycn"], ctx["cycp"] = m, sl, n, pp
+	return ctx
 }
 
 // ---------------------------------------------------------------- child
@@ -190,6 +225,8 @@ func c05Tokens(src string, large bool) (toks []twig.Token, err error) {
 }
 
 var c05Shared *twig.Engine
+var c05LoaderEngine *twig.Engine
+var c05LoaderSrc map[string]string
 
 func c05Helpers(eng *twig.Engine) {
 	eng.RegisterString("inc", "[inc {{ a }}]")
@@ -197,19 +234,43 @@ func c05Helpers(eng *twig.Engine) {
 	eng.RegisterString("macros", "{% macro m(p, q = 2) %}({{ p }},{{ q }}){% endmacro %}{% macro n() %}n{% endmacro %}")
 }
 
-func c05Reuse(o *c05Obs, eng *twig.Engine) {
-	var out string
-	var err error
-	p := &c05Obs{}
-	p.guard("reuse", func() {
-		if err = eng.RegisterString("c05ok", "ok {{ a }}"); err == nil {
-			out, err = eng.Render("c05ok", map[string]interface{}{"a": "A1"})
+// c05Reuse: after every case the same engine must still register, load and render. Two steps (register and
+// render a fresh template; load and render one that is already there), under a watchdog of their own: an
+// engine whose lock was left held blocks for ever, which the child reports and then asks to be replaced.
+func c05Reuse(o *c05Obs, eng *twig.Engine, loaded string) {
+	type res struct{ msg string }
+	done := make(chan res, 1)
+	go func() {
+		var out, out2 string
+		var err error
+		p := &c05Obs{}
+		p.guard("reuse", func() {
+			if err = eng.RegisterString("c05ok", "ok {{ a }}"); err == nil {
+				out, err = eng.Render("c05ok", map[string]interface{}{"a": "A1"})
+			}
+			if err == nil {
+				out2, err = eng.Render(loaded, map[string]interface{}{"a": "A1"})
+			}
+		})
+		switch {
+		case p.Panic != "":
+			done <- res{"a trivial render panics afterwards: " + p.Panic}
+		case err != nil || out != "ok A1" || out2 != "[inc A1]":
+			done <- res{fmt.Sprintf("trivial renders afterwards give %q and %q, %v", out, out2, err)}
+		default:
+			done <- res{""}
 		}
-	})
-	if p.Panic != "" {
-		o.Unusable = "trivial render panics afterwards: " + p.Panic
-	} else if err != nil || out != "ok A1" {
-		o.Unusable = fmt.Sprintf("trivial render afterwards gives %q, %v", out, err)
+	}()
+	select {
+	case r := <-done:
+		if r.msg != "" && o.Unusable == "" {
+			o.Unusable = r.msg
+		}
+	case <-time.After(500 * time.Millisecond):
+		if o.Unusable == "" {
+			o.Unusable = "a trivial register / load / render on the same engine afterwards does not return (engine left locked)"
+		}
+		o.Restart = true
 	}
 }
 
@@ -328,27 +389,52 @@ func c05Exec(c Case) *c05Obs {
 				o.Outcome = "parsed"
 			}
 		}
-		c05Reuse(o, eng)
+		c05Reuse(o, eng, "inc")
+		// the same source supplied by a loader (Engine.Load reads, parses and caches it), then the engine again
+		if o.Panic == "" && o.Unusable == "" && c.str("norender") == "" {
+			le := c05LoaderEngine
+			c05LoaderSrc["c05main"] = src
+			le.SetCache(false)
+			o.guard("Render of a loader-supplied source", func() {
+				_, lerr := le.Render("c05main", c05Ctx())
+				switch {
+				case lerr == nil && o.Outcome != "value":
+					o.Notes = append(o.Notes, "loader route renders, registered route: "+o.Outcome)
+				case lerr != nil && o.Outcome == "value":
+					o.Notes = append(o.Notes, "loader route fails, registered route renders: "+lerr.Error())
+				}
+			})
+			le.SetCache(true)
+			c05Reuse(o, le, "inc")
+		}
 	case "render":
 		src := c.hexs("tpl")
 		eng := c05Shared
 		var err error
+		rctx := c05Ctx()
+		if c.str("tag") == "cyclic" {
+			rctx = c05CyclicCtx()
+		}
 		o.guard("RegisterString", func() { err = eng.RegisterString("c05main", src) })
 		if o.Panic == "" {
 			if err != nil {
 				o.Outcome = "parse-error"
 			} else {
 				o.guard("Render", func() {
-					_, err = eng.Render("c05main", c05Ctx())
+					var out string
+					out, err = eng.Render("c05main", rctx)
 					if err != nil {
 						o.Outcome = "render-error"
 					} else {
 						o.Outcome = "value"
+						if c.str("out") != "" {
+							o.Shape = hx(out)
+						}
 					}
 				})
 			}
 		}
-		c05Reuse(o, eng)
+		c05Reuse(o, eng, "inc")
 	case "compiled":
 		data := []byte(c.hexs("data"))
 		eng := c05Shared
@@ -367,7 +453,7 @@ func c05Exec(c Case) *c05Obs {
 				}
 			}
 		}
-		c05Reuse(o, eng)
+		c05Reuse(o, eng, "inc")
 	default:
 		o.Notes = append(o.Notes, "unknown stream")
 	}
@@ -381,6 +467,16 @@ func c05Child() {
 	debug.SetMemoryLimit(2 << 30)
 	c05Shared = twig.New()
 	c05Helpers(c05Shared)
+	// a second engine whose templates come from a loader; the map is the loader's own, so the source under
+	// test is swapped in place
+	c05LoaderSrc = map[string]string{
+		"inc":    "[inc {{ a }}]",
+		"base":   "<{% block body %}base{% endblock %}|{% block other %}o{% endblock %}>",
+		"macros": "{% macro m(p, q = 2) %}({{ p }},{{ q }}){% endmacro %}{% macro n() %}n{% endmacro %}",
+		"broken": "{% if %}",
+	}
+	c05LoaderEngine = twig.New()
+	c05LoaderEngine.RegisterLoader(twig.NewArrayLoader(c05LoaderSrc))
 	in := bufio.NewReaderSize(os.Stdin, 1<<20)
 	// replies travel on a private copy of stdout: the engine itself prints to os.Stdout on some error paths
 	fd, err := syscall.Dup(1)
@@ -400,7 +496,9 @@ func c05Child() {
 				fmt.Fprintln(os.Stderr, "child: bad case:", e)
 				os.Exit(4)
 			}
+			t0 := time.Now()
 			o := c05Exec(c)
+			o.Millis = time.Since(t0).Milliseconds()
 			b, _ := json.Marshal(o)
 			out.Write(b)
 			out.WriteByte('\n')
@@ -592,8 +690,17 @@ func c05Pool(cases []Case, handle func(d c05Done)) {
 						w = nil
 						continue
 					}
-					results <- c05Done{c: c, obs: &o}
-				case <-time.After(limit):
+					if time.Duration(o.Millis)*time.Millisecond > limit+1200*time.Millisecond {
+						results <- c05Done{c: c, fail: "timeout:slow:" + o.Where, detail: fmt.Sprintf("took %d ms", o.Millis)}
+					} else {
+						results <- c05Done{c: c, obs: &o}
+					}
+					if o.Restart {
+						atomic.AddInt32(&c05Timeouts, 1)
+						w.kill()
+						w = nil
+					}
+				case <-time.After(limit + 1200*time.Millisecond): // the slack covers the usable-afterwards probes
 					// ask the runtime for the goroutine stacks (SIGQUIT), then kill
 					w.cmd.Process.Signal(syscall.SIGQUIT)
 					exited := make(chan struct{})
@@ -752,6 +859,15 @@ func runC05(casesPath string, res *Result) {
 		}
 		if stream == "tokens" {
 			c05JudgeTokens(c, o, res, &exact, &noexact, &srcSame)
+		}
+		if tag == "sanity" && o.Panic == "" {
+			switch {
+			case o.Outcome != "value":
+				addClass("sanity-error", Finding{Kind: "oracle", Where: "render/sanity", Case: c, Expected: "output " + fmt.Sprintf("%q", c.hexs("out")),
+					Observed: o.Outcome, Detail: "sanity-error: a read of an existing field or zero-argument method of a supported context value fails (an internal failure reported as an error)"})
+			case o.Shape != c.str("out"):
+				res.add(Finding{Kind: "disagreement", Where: "render/sanity", Case: c, Expected: fmt.Sprintf("%q", c.hexs("out")), Observed: fmt.Sprintf("%q", unhex(o.Shape))})
+			}
 		}
 		if len(res.Samples) < 12 && (res.Evaluations%97 == 1) {
 			res.sample(map[string]interface{}{"stream": stream, "tag": tag, "outcome": o.Outcome, "verdict": o.Verdict}, 12)
